@@ -33,6 +33,8 @@ KEY_INCOMP = 'C05:effective-in-features:mps-module-in-input-component'
 KEY_REUSE = 'C05:layer-reuse:per-invocation-shape'
 KEY_TIE = 'C05:coefficient-tie:sampled-coefficients-not-one-hot'
 KEY_NE16_COUNT = 'C05:ne16_latency:per-channel:float32-channel-count'
+KEY_SIAM = 'C05:layer-reuse:call-sites-on-different-producers'
+KEY_EXCL = 'C05:effective-in-features:excluded-operand'
 LT_NAME = {'Conv1d': 'conv1d', 'Conv2d': 'conv2d', 'Linear': 'linear'}
 
 
@@ -370,7 +372,9 @@ def _run_case(case):
             kind = geo[ii]['kind']
             for e_ in ent:
                 if e_[0] != ex[ii]['alive_in']:
-                    in_key[ii] = (KEY_INCOMP if ii in icc else (KEY_LINEAR if kind == 'lin' else 'C05:shown-in-features:%s' % kind))
+                    in_key[ii] = (KEY_SIAM if (desc.get('siamese') and (desc['prog'][ii][0] == 'reuse' or any(
+                        j[0] == 'reuse' and j[2] == ii for j in desc['prog']))) else
+                                  KEY_INCOMP if ii in icc else (KEY_LINEAR if kind == 'lin' else 'C05:shown-in-features:%s' % kind))
                     res['fail'].append((in_key[ii], 'layer %s (%s) is shown %s input features under its PyTorch name, %d are alive'
                                         % (name, kind, e_[0], ex[ii]['alive_in'])))
                     break
@@ -487,7 +491,9 @@ def _gen_cases(rng, n):
         if reuse:
             # one conv module invoked at two resolutions (non-shared metrics are per call site)
             dim = 2
-            desc = mc.gen_reuse_desc(rng, couts=(2, 3, 4) if fam == 'pl' else (2, 4, 8))
+            # ... alternately on tensors of one producer / of two different producers (siamese branches)
+            gen_r = mc.gen_siamese_desc if (k // 6) % 2 else mc.gen_reuse_desc
+            desc = gen_r(rng, couts=(2, 3, 4) if fam == 'pl' else (2, 4, 8))
         else:
             desc = mc.gen_desc(rng, couts=(2, 3, 4) if fam == 'pl' else (2, 4, 8), dim=dim,
                                first=('addin' if k % 20 == 18 else 'dw') if probe_in else ('dw' if (k % 11 == 4 and dim == 2) else None),
@@ -639,6 +645,82 @@ def _prune_cases(rng):
 
 
 # ------------------------------------------------------------------------------------------
+# (e) residual sum with the output of a layer excluded from the search (oracle only: the Lean model has
+#     no excluded layers -- exclusions are C09's grammar; probed here because the cost is C05's)
+# ------------------------------------------------------------------------------------------
+
+def _run_excluded(case):
+    """a(y) + b(y) with b excluded by name (all its channels stay alive), per-channel search with the
+    0-bit option, half of a's channels pruned: the consumer of the sum must be shown / charged for the
+    full width."""
+    import torch
+    import warnings
+    warnings.filterwarnings('ignore')
+    torch.set_num_threads(1)
+    from plinio.methods.mps import MPS, MPSType
+    from plinio.cost import params_bit, ops_bit
+    desc, cfg = case['desc'], case['cfg']
+    res = {'fail': []}
+    try:
+        rec = []
+        cost = {'params_bit': params_bit, 'ops_bit': ops_bit}
+        cost.update(_mk_probes(rec))
+        net, shape = mc.build_net(desc)
+        m = MPS(net, input_shape=shape, cost=cost, qinfo=mc.qinfo_of(cfg), w_search_type=MPSType.PER_CHANNEL,
+                temperature=cfg['T'], exclude_names=('n%d' % case['excluded'],))
+        with torch.no_grad():
+            for _, p_ in m.named_nas_parameters():
+                if p_.dim() == 2:
+                    p_.zero_()
+                    p_[p_.shape[0] - 1, :] = 1.0        # every channel: the non-zero precision (last row of (0, 8))
+            qa = m.seed.get_submodule('n%d' % case['pruned']).w_mps_quantizer
+            if qa.zero_index is not None:               # the repair may take the 0-bit option away
+                n_pr = qa.alpha.shape[1] // 2
+                qa.alpha[:, :n_pr] = 0.0
+                qa.alpha[qa.zero_index, :n_pr] = 1.0
+        m.eval()
+        with torch.no_grad():
+            m(mc.rand_input(cfg, shape, batch=2))
+        cons = m.seed.get_submodule('n%d' % case['consumer'])
+        full = int(cons.in_channels)
+        shown = float(cons.input_features_calculator.features)
+        res['shown'], res['full'] = shown, full
+        pb = float(m.get_cost('params_bit'))
+        bits = [b_ for b_ in cfg['wp'] if b_ != 0][0]
+        summ = m.summary()
+        exact = 0
+        for i, ins in enumerate(desc['prog']):
+            if ins[0] in ('conv', 'lin') and i != case['excluded']:
+                wb = summ['n%d' % i]['w_precision']
+                g = _geometry(desc)[i]
+                ain = g['cin']
+                exact += sum(wb) * g['k'] * ain
+        if shown != full:
+            res['fail'].append((KEY_EXCL, 'consumer n%d of a sum with the excluded layer n%d is shown %s input features, all %d are '
+                                'alive (the excluded operand is dense)' % (case['consumer'], case['excluded'], shown, full)))
+        elif pb != exact:
+            res['fail'].append(('C05:params_bit:excluded-operand', 'params_bit %s, exact %s' % (pb, exact)))
+    except Exception as ex_:
+        import traceback
+        res['fail'].append(('C05:exception:excluded-operand', '%s: %s' % (type(ex_).__name__, str(ex_)[:200])))
+        res['tb'] = traceback.format_exc().splitlines()[-6:]
+    return res
+
+
+def _excluded_cases(rng):
+    out = []
+    for first in (0, 1):
+        prog = [['input'], ['conv', 0, 4, 3, 1, 1], ['relu', 1], ['conv', 2, 4, 3, 1, 1], ['conv', 2, 4, 1, 1, 1]]
+        prog.append(['add', 3, 4] if first else ['add', 4, 3])
+        prog += [['relu', 5], ['conv', 6, 4, 1, 1, 1], ['relu', 7], ['flat', 8], ['lin', 9, 2, 1]]
+        cfg = mc.make_cfg(rng, pc=True, zero=True)
+        cfg['wp'] = [0, 8]
+        out.append({'kind': 'excluded', 'desc': {'C0': 3, 'T': 4, 'dim': 2, 'wseed': 21 + first, 'prog': prog}, 'cfg': cfg,
+                    'pruned': 3, 'excluded': 4, 'consumer': 7})
+    return out
+
+
+# ------------------------------------------------------------------------------------------
 
 def _judge(chk, case, res):
     seen = set()
@@ -652,8 +734,8 @@ def _judge(chk, case, res):
 def run(chk):
     chk.rule = ('(a) spec-key table extracted from the source of every class in mps_layer_map; (b) bit-cost functions on '
                 'random integer grids (layer type x depthwise x sizes x precisions); (c) random nets of the C02 grammar '
-                '(every 9th a Conv1d net, every 6th a net in which one conv module is invoked at two resolutions on tensors of '
-                'one producer) x {per-layer any tuples, per-channel, per-channel with 0-bit and pruned channels} '
+                '(every 9th a Conv1d net, every 6th a net in which one conv module is invoked twice: at two resolutions on tensors of '
+                'one producer, or on the outputs of two different producers (siamese branches)) x {per-layer any tuples, per-channel, per-channel with 0-bit and pruned channels} '
                 'x eval mode / training with hard sampling; every 3rd net draws its coefficients from the tie stream (top-2 / top-3 / '
                 'all-equal / 0-bit-vs-maximum exact ties; reference: first maximum),  widths powers of two in per-channel search so that shares '
                 'are dyadic and every float32 cost below 2^24 is an exact integer; ne16 on nets it applies to (8-bit '
@@ -676,6 +758,8 @@ def run(chk):
     prunes = _prune_cases(rng)
     results = common.pmap(_run_case, cases)
     presults = common.pmap(_run_prune, prunes)
+    excl = _excluded_cases(rng)
+    eresults = common.pmap(_run_excluded, excl)
     lines = ['keys'] + [_costfn_line(g) for g in grid]
     idx = []
     for k, r in enumerate(results):
@@ -714,7 +798,7 @@ def run(chk):
                   sample={'prog': case['desc']['prog'], 'family': case['family'], 'wp': cfg['wp'], 'ap': cfg['ap'],
                           'mode': case['mode'], 'cost': r.get('cost')})
         for hk in ('mode:' + case['mode'], 'dim:%d' % case['desc']['dim'], 'ne16:%d' % case['ne16'],
-                   'pruned_layers>0:%d' % int(r.get('pruned_layers', 0) > 0), 'layer-reuse:%d' % int(bool(r.get('reuse'))),
+                   'pruned_layers>0:%d' % int(r.get('pruned_layers', 0) > 0), 'layer-reuse:%d' % int(bool(r.get('reuse'))), 'siamese:%d' % int(bool(case['desc'].get('siamese'))),
                    'ties:%d' % int(bool(cfg.get('ties')))):
             chk.hist[hk] = chk.hist.get(hk, 0) + 1
         if r.get('big'):
@@ -743,6 +827,11 @@ def run(chk):
     for case, r in zip(prunes, presults):
         chk.count(('prune', case['name'], json.dumps(case['cfg'], sort_keys=True)), bucket='prune:' + case['name'],
                   sample={'family': case['name'], 'steps': r['steps'][:3]})
+        _judge(chk, case, r)
+    # ---------------- (e) excluded operand
+    for case, r in zip(excl, eresults):
+        chk.count(('excluded', json.dumps(case['desc']['prog'])), bucket='excluded-operand',
+                  sample={'family': 'excluded-operand', 'shown': r.get('shown'), 'full': r.get('full')})
         _judge(chk, case, r)
     broken = bool(chk.proof_broken or chk.corr_disagreements)
     if broken and not chk.violations:
@@ -802,7 +891,7 @@ def _ne16_entry(g, cin, cout, pw, tw):
 def replay(data):
     common.use_repo_on_path()
     case = data['case']
-    r = _run_prune(case) if case.get('kind') == 'prune' else _run_case(case)
+    r = _run_prune(case) if case.get('kind') == 'prune' else (_run_excluded(case) if case.get('kind') == 'excluded' else _run_case(case))
     print('program:', case['desc']['prog'])
     print('cfg:', case['cfg'], 'family:', case.get('family', case.get('name')), 'mode:', case.get('mode'))
     if case.get('kind') == 'prune':
